@@ -33,6 +33,26 @@ import (
 // validator and extension enabled; after each one the event loop must answer and an honest peer's message
 // must still be delivered.
 
+// router: 0 gossipsub (scoring, peer exchange, extensions), 1 floodsub, 2 randomsub
+func vfHostileNodeR(t *testing.T, ctx context.Context, h host.Host, max int, count *int, router int) *PubSub {
+	if router == 0 {
+		return vfHostileNode(t, ctx, h, max, count)
+	}
+	opts := []Option{WithMaxMessageSize(max), WithMessageSignaturePolicy(LaxNoSign), WithDefaultValidator(NewBasicSeqnoValidator(vfMemMeta{}, slog.Default())),
+		WithAppSpecificRpcInspector(func(peer.ID, *RPC) error { *count++; return nil })}
+	var ps *PubSub
+	var err error
+	if router == 1 {
+		ps, err = NewFloodSub(ctx, h, opts...)
+	} else {
+		ps, err = NewRandomSub(ctx, h, 150, opts...) // a large size estimate: the fan-out target is sqrt(150) = 13
+	}
+	if err != nil {
+		t.Fatal(err)
+	}
+	return ps
+}
+
 func vfHostileNode(t *testing.T, ctx context.Context, h host.Host, max int, count *int) *PubSub {
 	gp := DefaultGossipSubParams()
 	gp.MaxIHaveLength, gp.MaxIHaveMessages = 5, 3 // small budgets so that boundary values are hit
@@ -197,11 +217,25 @@ func vfHostileRPC(rng *rand.Rand, victimTopics []string) *pb.RPC {
 		}
 	}
 	for _, m := range r.Publish {
+		// most messages are in a topic the victim is subscribed to and are unsigned (accepted by the lax policy), so that
+		// the adversarial field reaches the validators; random content keeps the message ids apart
+		if rng.Intn(4) != 0 {
+			t := victimTopics[rng.Intn(len(victimTopics))]
+			m.Topic = &t
+			m.Signature, m.Key = nil, nil
+			m.Data = []byte(fmt.Sprintf("h%d", rng.Int63()))
+			if rng.Intn(2) == 0 {
+				m.Seqno = make([]byte, 8)
+				rng.Read(m.Seqno)
+			}
+		}
 		switch rng.Intn(8) {
 		case 0:
 			m.Seqno = make([]byte, rng.Intn(8)) // wrong length
+			rng.Read(m.Seqno)
 		case 1:
 			m.Seqno = make([]byte, 9+rng.Intn(4))
+			rng.Read(m.Seqno)
 		case 2:
 			m.From = []byte("not-a-peer-id")
 		case 3:
@@ -263,15 +297,22 @@ func vfHostileRPC(rng *rand.Rand, victimTopics []string) *pb.RPC {
 func TestVF_Hostile(t *testing.T) {
 	cs := vfNewCases(t, "hostile", "From PS Require Import Run.Verdict.", "nat", "(fun _ => VOk)")
 	rng := vfRng(120)
-	nrpc := vfN(1500, 20000)
+	nrpcAll := vfN(1500, 20000)
 	outDir := vfOutDir(t)
 	var viol map[string]any
+	total := 0
+	for router := 0; router < 3 && viol == nil; router++ {
+	nrpc := nrpcAll
+	if router > 0 {
+		nrpc = nrpcAll / 3
+	}
+	total += nrpc
 	synctest.Test(t, func(t *testing.T) {
 		ctx, cancel := context.WithCancel(context.Background())
 		defer cancel()
 		hosts := vfHosts(t, 5)
 		count := 0
-		psA := vfHostileNode(t, ctx, hosts[0], 1<<20, &count)
+		psA := vfHostileNodeR(t, ctx, hosts[0], 1<<20, &count, router)
 		var subs []*Subscription
 		for _, tn := range []string{"t0", "t1"} {
 			tp, err := psA.Join(tn)
@@ -284,6 +325,24 @@ func TestVF_Hostile(t *testing.T) {
 			}
 			subs = append(subs, s)
 		}
+		if router == 2 {
+			// "any number of peers": a dozen more randomsub peers, nine of them in the topic (more than RandomSubD, fewer than
+			// the fan-out target)
+			extra := vfPeerIDs(12)
+			vfEval(psA, func() {
+				for k, p := range extra {
+					psA.peers[p] = newRpcQueue(1 << 16)
+					psA.rt.OnNewOutboundStream(p, RandomSubID, nil)
+					if k < 9 {
+						sv := true
+						for _, tn := range []string{"t0", "t1"} {
+							tn := tn
+							psA.handleIncomingRPC(&RPC{RPC: pb.RPC{Subscriptions: []*pb.RPC_SubOpts{{Subscribe: &sv, Topicid: &tn}}}, from: p})
+						}
+					}
+				}
+			})
+		}
 		// an honest node
 		psH, err := NewGossipSub(ctx, hosts[3], WithMessageSignaturePolicy(LaxNoSign))
 		if err != nil {
@@ -295,6 +354,12 @@ func TestVF_Hostile(t *testing.T) {
 		}
 		// hostile peers of different protocol versions
 		protos := []protocol.ID{GossipSubID_v13, GossipSubID_v11, FloodSubID}
+		if router == 1 {
+			protos = []protocol.ID{FloodSubID, FloodSubID, FloodSubID}
+		}
+		if router == 2 {
+			protos = []protocol.ID{RandomSubID, FloodSubID, FloodSubID}
+		}
 		var mocks []*vfMock
 		for i, pr := range protos {
 			m := &vfMock{t: t, h: hosts[1+i%2], a: hosts[0], proto: pr}
@@ -376,7 +441,7 @@ func TestVF_Hostile(t *testing.T) {
 		}
 		delivered := 0
 		for i := 0; i < nrpc; i++ {
-			if i%500 == 250 {
+			if router == 0 && i%500 == 250 && nflood < 4 { // every flood leaves hundreds of dial attempts behind: a handful is enough
 				if !pxFlood(i) {
 					break
 				}
@@ -431,21 +496,23 @@ func TestVF_Hostile(t *testing.T) {
 				}
 			}
 		}
-		cs.extra["hostile_rpcs_sent"] = nrpc
-		cs.extra["honest_deliveries_checked"] = delivered
-		cs.extra["rpcs_reaching_the_event_loop"] = count
+		cs.extra[fmt.Sprintf("honest_deliveries_checked_router%d", router)] = delivered
+		cs.extra[fmt.Sprintf("rpcs_reaching_the_event_loop_router%d", router)] = count
 		os.Remove(filepath.Join(outDir, "c12_last_input.json"))
 		for _, s := range subs {
 			s.Cancel()
 		}
 		cancel()
+		time.Sleep(3 * time.Second) // announceRetry goroutines sleep up to a second before they notice the context
 		synctest.Wait()
 	})
-	cs.add("0", map[string]any{"hostile_rpcs": nrpc}, true)
+	}
+	cs.extra["hostile_rpcs_sent"] = total
+	cs.add("0", map[string]any{"hostile_rpcs": total}, true)
 	if viol != nil {
 		js, _ := json.MarshalIndent(viol, "", " ")
 		os.WriteFile(filepath.Join(outDir, "violation_hostile.json"), js, 0o644)
 	}
-	cs.flush("structurally valid RPCs with adversarial field values (empty / huge / unknown topics, wrong-length sequence numbers, bogus author ids, absent optional fields, signatures under a no-sign policy, IHAVE lists around the per-peer budget, PRUNE with huge backoff and bogus / unsigned peer records, empty control entries, floods of validly signed peer-exchange records for unreachable addresses from a peer in good standing, extension and partial-message fields from the C11 generator) from peers of different protocol versions over REAL streams to a node with scoring, peer exchange, the sequence-number validator and extensions; every 25 RPCs the event loop is probed and an honest node's publication must be delivered; the last input is kept on disk so that a crash of the process can be attributed; " +
+	cs.flush("structurally valid RPCs with adversarial field values (empty / huge / unknown topics, wrong-length sequence numbers, bogus author ids, absent optional fields, signatures under a no-sign policy, IHAVE lists around the per-peer budget, PRUNE with huge backoff and bogus / unsigned peer records, empty control entries, floods of validly signed peer-exchange records for unreachable addresses from a peer in good standing, extension and partial-message fields from the C11 generator) from peers of different protocol versions over REAL streams to a gossipsub node with scoring, peer exchange, the sequence-number validator and extensions, and (a third of the volume each) to a floodsub and a randomsub node with the sequence-number validator; every 25 RPCs the event loop is probed and an honest node's publication must be delivered; the last input is kept on disk so that a crash of the process can be attributed; " +
 		"non-trivial = always; distinct = index")
 }
